@@ -173,12 +173,12 @@ def th3(model):
                    'character (map entry - 1), the end is the map entry of the LAST flagged '
                    'character (exclusive end, issue #21), and every recorded highlight is '
                    'non-empty (end > start)', floor=3)
-    f = model.func('shell.genhtml.generate_html')
-    cm = f.params[1]
-    loops = [s for s in f.node.body if isinstance(s, ast.For)]
-    if not loops:
+    from .th import html_phases
+    ph = html_phases(model)
+    if not ph['collect']:
         raise AnalysisError('anchor vanished: match loop of generate_html')
-    loop = loops[0]
+    f, loop = ph['collect']
+    cm = f.params[1]
     idxs = []
 
     class Ev(SymEval):
@@ -702,11 +702,11 @@ def th4(model):
     r = RuleResult('TH4', 'HTML regions: a new region is opened only if the entry starts at or '
                    'behind the end of EVERY entry of the last region (an aggregate over the region, '
                    'not its last member: ends are not monotonic)', floor=1)
-    f = model.func('shell.genhtml.generate_html')
-    loops = [s for s in f.node.body if isinstance(s, ast.For)]
-    if len(loops) < 2:
+    from .th import html_phases
+    ph = html_phases(model)
+    if not ph['group']:
         raise AnalysisError('anchor vanished: grouping loop of generate_html')
-    grp = loops[1]
+    f, grp = ph['group']
     ifs = [s for s in grp.body if isinstance(s, ast.If)]
     for s in ifs:
         t = s.test
